@@ -1,16 +1,66 @@
 # C11 registry entry: see lib/registry.py for the field meanings
-import os, sys
-sys.path.insert(0, os.path.dirname(os.path.dirname(os.path.abspath(__file__))))
-try:
-    from registry import PERF_STUB
-except Exception:  # registry is being imported right now (circular): fall back to the same text
-    PERF_STUB = ("pkg/koordlet/util/perf_group/perf_group_linux.go is replaced (build overlay only) by a cgo-free stand-in "
-                 "with the same exported surface, because libpfm4 headers are not installed; no oracle touches perf counters")
+PERF_STUB = ('pkg/koordlet/util/perf_group/perf_group_linux.go is replaced (build overlay only) by a cgo-free stand-in '
+             'with the same exported surface, because libpfm4 headers are not installed; no oracle touches perf counters')
 
-PROP = {'rule': 'TODO',
- 'assumptions': [PERF_STUB],
+PROP = {'rule': 'rapid-generated cases. loop (KillAndEvictPods): 1-3 tasks over a small alphabet of target types {podUsed, podResourceRequest, '
+         'podBatchResourceRequest} and resources {memory, cpu, batch-*, mid-*}; targets nil / empty / zero / 1..8 units (x1, x1000, x2^30 '
+         'with +-1 jitter); 1-7 pods, each task a victim list that is a random ordered subset; per-pod release amounts 0..6 with a '
+         'per-case share of zeros; each task\'s GetPodResourceFunc reports values with explicit zeros / without zeros / nil / empty, all '
+         'resources or only the target\'s; the PodEvictInfo of one pod may differ between lists (1 case in 5); recording executor with a '
+         'per-pod, per-call failure pattern, a set of already-evicted pods, and optionally remembering its own evictions. non-trivial = '
+         '>=2 tasks with a positive target share a victim AND at least one Evict call failed AND some candidate contributes nothing to '
+         'its task\'s target. memLists/cpuLists: 0-8 pods (QoS label incl. absent/bogus, spec.priority nil / 0 / at, +-1 around the '
+         'thresholds / class range borders, priority-class label, eviction-enabled label true/false/True/empty/absent, '
+         'koordinator.sh/priority label, eviction-priority annotation incl. int32 limits / out of range / text, eviction-policy '
+         'annotation absent / any subset of the three policies / other spelling / eight malformed forms, phase, batch/mid/native '
+         'requests, usage sample present or not), thresholds from the webhook-valid range; non-trivial = >=2 pods listed AND >=1 pod '
+         'excluded. memEndToEnd/cpuEndToEnd: the same pods plus node allocatable (batch/mid resource absent / 0 / small), node usage '
+         'around the threshold, BE satisfaction metrics around the limits, feature gates, failure pattern and already-evicted pods, run '
+         'through memoryEvict()/cpuEvict(); non-trivial = a target was computed, >=1 Evict call, >=1 pod present that the policy does '
+         'not allow. distinct = FNV-64 fingerprint of the full case description.',
+ 'assumptions': [PERF_STUB,
+                 'a victim list never names the same pod twice and pods have unique namespace/name (lists are built from the informer\'s pod set)',
+                 'functions of tasks with the same release target type report the same amount for the same (PodEvictInfo, resource) or '
+                 'nothing (real callers derive them from the pod / the info), so merging them by maximum is unambiguous',
+                 'release targets are never negative (callers publish positive or, for resources the node does not report, zero amounts)',
+                 'pods carry status.qosClass and have no init containers / overhead (request sums are plain sums over containers)',
+                 'lenient readings, see manifest note: already-evicted pods count from the moment the executor reported them; a victim '
+                 '"frees something" if it frees any still-short amount of ANY task of the round; a pod without usage sample is not judged '
+                 'to free nothing; the best-effort lists are checked against priority, then usage (the eviction-priority annotation is '
+                 'documented for "MemoryEvict, CPUEvict")',
+                 'the release targets are taken as computed by buildEvictTask (the statement speaks of "the computed target")'],
  'units': [{'name': 'loop',
             'pkg': 'pkg/koordlet/qosmanager/plugins/util',
             'files': ['C11/c11_loop_test.go'],
-            'tests': [{'run': 'TestVerifC11Loop', 'quick': 3000, 'thorough': 20000}]}],
- 'manifest': {'technique': 'TODO', 'text': 'TODO', 'note': 'TODO'}}
+            'tests': [{'run': 'TestVerifC11Loop', 'quick': 4000, 'thorough': 20000}]},
+           {'name': 'mem',
+            'pkg': 'pkg/koordlet/qosmanager/plugins/memoryevict',
+            'files': ['C11/c11_mem_test.go'],
+            'tests': [{'run': 'TestVerifC11MemLists', 'quick': 2000, 'thorough': 5000},
+                      {'run': 'TestVerifC11MemEndToEnd', 'quick': 2000, 'thorough': 5000}]},
+           {'name': 'cpu',
+            'pkg': 'pkg/koordlet/qosmanager/plugins/cpuevict',
+            'files': ['C11/c11_cpu_test.go'],
+            'tests': [{'run': 'TestVerifC11CPULists', 'quick': 2000, 'thorough': 5000},
+                      {'run': 'TestVerifC11CPUEndToEnd', 'quick': 2000, 'thorough': 5000}]}],
+ 'manifest': {'technique': 'property-based testing (rapid): generated task sets / victim lists / failure patterns against a recording '
+                           'eviction executor with an independent running-total oracle; generated pod sets against restated eligibility '
+                           'and ordering rules; end-to-end runs of memoryEvict()/cpuEvict() with fake informer and metric cache',
+              'text': 'Generated-input search over (a) the shared eviction loop KillAndEvictPods: every Evict call received by a recording '
+                      'executor must name a pod of the calling task\'s victim list, follow the list order without passing over a candidate '
+                      'that certainly still helps, come before the task\'s target is covered by the victims so far (successful evictions of '
+                      'any task plus pods reported as already evicted), never repeat a successful eviction or hit an already-evicted pod, '
+                      'and free something that is still short; the returned release account must lie between the most conservative and '
+                      'the most generous reading. (b) the three victim lists of memoryevict and of cpuevict: listed = exactly the pods the '
+                      'policy allows (best-effort QoS, or active + priority <= threshold + eviction-enabled; not opted out by the '
+                      'eviction-policy annotation; malformed annotation = opted out) that have a usage sample where the list needs one, no '
+                      'duplicates, and every pair ordered by eviction priority, priority, then sub-priority label / usage or request. '
+                      '(c) memoryEvict()/cpuEvict() end to end with the real task builders: eligibility of every victim per feature, no pod '
+                      'twice, nothing after the computed target is covered, nothing evicted that frees none of what is short. '
+                      'Exploration, not proof: absence of violations over the sampled cases.',
+              'note': 'Where the statement leaves room the lenient reading is asserted and the strict one only counted as a class: pending '
+                      '(already-evicted) pods count once the executor has reported them, not before; a victim that frees nothing for its own '
+                      'task but something for another task of the same round is accepted; pods without usage sample are not judged; the '
+                      'BE lists are not required to honour the eviction-priority annotation. Under-eviction (stopping early, e.g. because '
+                      'memoryevict multiplies pod usage by 1000 in the by-priority lists) is outside the statement and not asserted. '
+                      'rapid\'s PRNG and shrinker; Go map iteration inside koordinator is not controlled; perf_group stand-in.'}}
